@@ -2,10 +2,11 @@ import TruthModel.Driver.Lw
 namespace TruthModel.Driver.C02
 open TruthModel
 
-/-- `(low CFG (body ...))` -> `(ok (ins ...)...)` | `(err class)` -/
+/-- `(low CFG (body ...))` / `(lowj CFG (body ...))` (bodies with labels and jumps; jump targets are printed as\nthe position of the target in the instruction list) -> `(ok (ins ...)...)` | `(err class)` -/
 def handle (case : Sexp) : Sexp :=
   match case.head? with
   | some "low" => Driver.Lw.compileCase case false
+  | some "lowj" => Driver.Lw.compileCaseJ case
   | _ => .atom "bad-case"
 
 end TruthModel.Driver.C02
